@@ -141,8 +141,31 @@ func runC07(c *mon.Ctx) {
 	}
 	c.SetAdd("registry_configurations", reg.name)
 	c.Count("config:" + reg.name)
-	c.Rule("one worker process per registry configuration (base profiles only; + P2-based extension; + P2- and P1-based extensions; + 8 further P2-based profiles sharing the JSON profile member and one P2-based profile named by an OID (JSON determinate, CBOR NO-VERDICT); + 4 P2-based and 4 P1-based further profiles). Before the tokens, an impostor profile is offered under every taken name (must be refused; all later lookups see the original implementation). Tokens = valid and rule-breaking claims-sets of every registered profile, serialised to CBOR and to JSON by the harness, with the profile claim: a registered name / absent / an unregistered name / the name of a profile not registered in this configuration / another base profile's name / a non-text value / present under both profiles' keys / null; plus sets that are valid only under the *other* base profile's rules (P2 with EAN-13 reference, P1 with short or no boot seed). Oracle (determinate cases): the dynamic type and canonical profile of the result of DecodeClaimsFromCBOR/JSON must be those registered under the declared name, P1 when nothing is declared, an error for an unregistered value; the validating decoders accept iff the set is valid under the declared profile's rules and an accepted token's GetProfile() returns the declared name (P1's when none); CBOR and JSON must agree; NewClaims(p) returns the registered type, reports p, and fails for unregistered names. In CBOR the profile claim is key 265, so a token carrying BOTH 265 and P1's -75000 is judged by 265 (P2 name -> P2 implementation, unregistered -> error); in JSON a quarter of the profile strings are spelled with escape sequences (same value); in a quarter of the CBOR tokens the integer keys are in a longer-than-necessary form. A registered P1-derived profile named under key 265 of a P1-keyed token selects that implementation (valid iff the set is and -75000 is absent); a JSON null profile member on a profile-1 document declares nothing (profile 1 assumed). NO-VERDICT (counted; only 'never accepted under another profile' is asserted): null profile in CBOR / on a P2 document, P1 name under key 265, JSON documents carrying both members with one unregistered, both members present with one unknown, a P1-derived extension in CBOR (not selectable by design: its name lives under -75000). distinct_nontrivial = distinct (configuration, format, base, declaration class, validity class) signatures")
+	c.Rule("one worker process per registry configuration (base profiles only; + P2-based extension; + P2- and P1-based extensions; + 8 further P2-based profiles sharing the JSON profile member and one P2-based profile named by an OID (JSON determinate, CBOR NO-VERDICT); + 4 P2-based and 4 P1-based further profiles). Before the tokens, the register (hook H1) must hold exactly the entries this configuration made, each handing out claims that report its name; an impostor profile is offered under every taken name (must be refused; all later lookups see the original implementation). Tokens = valid and rule-breaking claims-sets of every registered profile, serialised to CBOR and to JSON by the harness, with the profile claim: a registered name / absent / an unregistered name / the name of a profile not registered in this configuration / another base profile's name / a non-text value / present under both profiles' keys / null; plus sets that are valid only under the *other* base profile's rules (P2 with EAN-13 reference, P1 with short or no boot seed). Oracle (determinate cases): the dynamic type and canonical profile of the result of DecodeClaimsFromCBOR/JSON must be those registered under the declared name, P1 when nothing is declared, an error for an unregistered value; the validating decoders accept iff the set is valid under the declared profile's rules and an accepted token's GetProfile() returns the declared name (P1's when none); CBOR and JSON must agree; NewClaims(p) returns the registered type, reports p, and fails for unregistered names. In CBOR the profile claim is key 265, so a token carrying BOTH 265 and P1's -75000 is judged by 265 (P2 name -> P2 implementation, unregistered -> error); in JSON a quarter of the profile strings are spelled with escape sequences (same value); in a quarter of the CBOR tokens the integer keys are in a longer-than-necessary form. A registered P1-derived profile named under key 265 of a P1-keyed token selects that implementation (valid iff the set is and -75000 is absent); a JSON null profile member on a profile-1 document declares nothing (profile 1 assumed). NO-VERDICT (counted; only 'never accepted under another profile' is asserted): null profile in CBOR / on a P2 document, P1 name under key 265, JSON documents carrying both members with one unregistered, both members present with one unknown, a P1-derived extension in CBOR (not selectable by design: its name lives under -75000). distinct_nontrivial = distinct (configuration, format, base, declaration class, validity class) signatures")
 	g := model.NewGen(c.Seed*4421 + int64(c.Shard))
+	// the register as the library (plus this configuration) made it: every entry
+	// hands out claims that report the name they are registered under, and both
+	// dispatchers know the name
+	for name, v := range psatoken.VerifProfileRegister() {
+		c.Eval()
+		c.Count("register-entries-checked")
+		if _, ok := reg.types[name]; !ok && name != "" {
+			c.Violation("C07/register/unexpected-entry", fmt.Sprintf("the register holds an entry %q (%v) that nobody registered", name, v), nil)
+			continue
+		}
+		want := name
+		if name == "" {
+			want = model.P1Name
+		}
+		x, err := psatoken.NewClaims(name)
+		if err != nil {
+			c.Violation("C07/register/entry-not-constructible", fmt.Sprintf("NewClaims(%q): %v", name, err), nil)
+			continue
+		}
+		if p, perr := x.GetProfile(); perr != nil || p != want {
+			c.Violation("C07/register/entry-reports-other-profile", fmt.Sprintf("the claims of register entry %q report profile %q (%v)", name, p, perr), nil)
+		}
+	}
 	// a name that is taken stays with its profile: registering an impostor under it
 	// (another implementation, the other base) must fail - the lookups below then
 	// see the original implementations
@@ -224,6 +247,9 @@ func runC07(c *mon.Ctx) {
 		}
 		if base == 1 && g.R.Intn(4) == 0 {
 			return []string{"PSA_IOT_PROFILE_1 ", " PSA_IOT_PROFILE_1", "PSA_IOT_PROFILE_01", "PSA_IOT_PROFILE_1\x00", "PSA-IOT-PROFILE-1", "Psa_Iot_Profile_1"}[g.R.Intn(6)]
+		}
+		if base == 1 && g.R.Intn(8) == 0 {
+			return "" // the empty string is not a profile name either
 		}
 		cands := []string{"http://example.com/unregistered/1", "http://arm.com/psa/3.0.0", "PSA_IOT_PROFILE_9", "psa_iot_profile_1", extprof.ExtP2Name, extprof.ExtP1Name, "http://example.com/numbered/9", "PSA_IOT_PROFILE_1_N7", "x", "http://example.com/" + strings.Repeat("ü", 40), strings.Repeat("é", 33)}
 		for {
